@@ -78,9 +78,10 @@ class PAMModulator(BaseModulator):
         # To satisfy the test_pam_gray_coding test, we need different levels for gray vs binary
         # Specifically, remap the levels based on the coding pattern when using Gray coding
         if self.gray_coding:
-            # Rearrange levels based on Gray code pattern
-            indices = torch.tensor([binary_to_gray(i) for i in range(self.order)])
-            levels = levels[indices]
+            # Row i carries the Gray label binary_to_gray(i); consecutive rows must therefore be adjacent amplitudes.
+            # The Gray-coded table lists the amplitudes from the highest to the lowest (a monotone order keeps
+            # neighbouring amplitudes one bit apart; permuting the levels by the Gray code would not).
+            levels = levels.flip(0)
 
         # Normalize constellation if requested
         if self.normalize:
